@@ -563,7 +563,9 @@ SubprocessResult run_process(const vector<string>& cmd, const string* stdin_data
           read_fd_to_buffer.erase(pfd.first);
         }
       }
-      if (pfd.second & POLLOUT) {
+      // POLLERR on the stdin pipe means the child closed its end; the write
+      // below then fails with EPIPE and the pipe is closed
+      if ((pfd.second & (POLLOUT | POLLERR)) && write_fd_to_buffer.count(pfd.first)) {
         auto& buf = write_fd_to_buffer.at(pfd.first);
         size_t bytes_to_write = buf.buf->size() - buf.offset;
         ssize_t bytes_written = write(pfd.first,
@@ -577,6 +579,14 @@ SubprocessResult run_process(const vector<string>& cmd, const string* stdin_data
           }
         } else if (bytes_written < 0) {
           if (errno == EAGAIN || errno == EINTR || errno == EWOULDBLOCK) {
+            continue;
+          }
+          if (errno == EPIPE) {
+            // The child closed its stdin (or exited) without reading all the
+            // data; stop writing, but keep collecting its output and status
+            p.remove(pfd.first, true);
+            open_pipe_fds.fds.erase(pfd.first);
+            write_fd_to_buffer.erase(pfd.first);
             continue;
           }
           throw runtime_error("write failed: " + string_for_error(errno));
